@@ -22,7 +22,7 @@ use compio_runtime::fd::PollFd;
 use compio_tls::{TlsAcceptor, TlsConnector};
 use compio_ws::{
     WebSocketStream, accept_async, client_async,
-    tungstenite::{Message, protocol::Role},
+    tungstenite::Message,
 };
 use hcore::out::{Report, cases_from_arg, panic_msg, silence_panics};
 use hsec::{
@@ -298,7 +298,6 @@ async fn endpoint(
             step!(obs, "ws_handshake", accept_async(s).await)
         }
     };
-    let _ = Role::Client;
     program(ws, active, eager, data, obs, flags).await
 }
 
